@@ -41,6 +41,25 @@ func (e ottoError) format() string {
 	return fmt.Sprintf("%s: %s", e.name, e.message)
 }
 
+// withProperties returns e with the name and message the error object has now:
+// a script may change them between construction and throw, and the error handed
+// to the Go caller describes the value that was thrown. Only data properties
+// holding primitives are read, so no script code runs here.
+func (e ottoError) withProperties(obj *object) ottoError {
+	read := func(key string, into *string) {
+		prop := obj.getProperty(key)
+		if prop == nil {
+			return
+		}
+		if value, ok := prop.value.(Value); ok && value.IsDefined() && value.IsPrimitive() {
+			*into = value.string()
+		}
+	}
+	read("name", &e.name)
+	read("message", &e.message)
+	return e
+}
+
 func (e ottoError) formatWithStack() string {
 	str := e.format() + "\n"
 	for _, frm := range e.trace {
@@ -232,9 +251,9 @@ func catchPanic(function func()) (err error) {
 				err = &Error{caught}
 				return
 			case Value:
-				if vl := caught.object(); vl != nil {
-					if vl, ok := vl.value.(ottoError); ok {
-						err = &Error{vl}
+				if obj := caught.object(); obj != nil {
+					if vl, ok := obj.value.(ottoError); ok {
+						err = &Error{vl.withProperties(obj)}
 						return
 					}
 				}
